@@ -172,10 +172,12 @@ def reject_programs():
                 extra_terms = [['var', name, 'p', None], ['var', name, 'e', draw(st.sampled_from([None, -1]))]]
                 if pnames:
                     have = ref.kinds[name]
-                    extra_terms = [['var', name, 'e' if have == 'p' else 'p', draw(st.sampled_from([None, -1]))]]
+                    extra_terms = [['var', name, 'e' if have == 'p' else 'p', draw(st.sampled_from([None, -1, ['q', "'p0'"]]))]]
             else:
                 name = draw(st.sampled_from(vnames))
-                extra_terms = [['var', name, 'p' if kind == 'var-as-param' else 'e', draw(st.sampled_from([None, -1, 1]))]]
+                # (the clashing mention may carry a named-period index as well as an integer offset)
+                extra_terms = [['var', name, 'p' if kind == 'var-as-param' else 'e',
+                                draw(st.sampled_from([None, -1, 1, ['q', "'p0'"], ['q', '"p 0"']]))]]
             rhs = s[2]
             for term in extra_terms:
                 rhs = ['bin', draw(st.sampled_from(['+', '*'])), rhs, term] if draw(st.booleans()) else \
